@@ -70,7 +70,7 @@ func (s SpinCap) Inconclusive() string {
 
 // foreign goroutines (test framework, other packages' background workers) are
 // ignored when they are not durably blocked only if they match these frames.
-var ignoreFrames = []string{"testing.(*M).", "os/signal.", "testing.runFuzzing", "testing.(*F)"}
+var ignoreFrames = []string{"testing.(*M).", "os/signal.", "testing.runFuzzing", "testing.(*F)", "monkit/v3.(*ticker).run"}
 
 // WaitQuiescent spins until every goroutine but the caller is durably blocked.
 func WaitQuiescent() []GInfo {
